@@ -253,6 +253,52 @@ class Evaluator:
             return self.truth(v[1])
         return ("truthy", v)
 
+    def known_conds(self) -> set:
+        out = set()
+        for e in self.ctx:
+            if e[0] == "if":
+                c = e[1]
+                out.add(c)
+                if c[0] == "and":
+                    out.update(c[1])
+                if c[0] == "not" and c[1][0] == "or":
+                    out.update(c_not(x) for x in c[1][1])
+        return out
+
+    def reduce_cond(self, c):
+        """Folds a condition that the current path already decides."""
+        if c[0] == "const":
+            return c
+        known = self.known_conds()
+        if not known:
+            return c
+
+        def red(x):
+            if x in known:
+                return TRUE
+            if c_not(x) in known:
+                return FALSE
+            if x[0] == "not":
+                return c_not(red(x[1]))
+            if x[0] == "and":
+                return c_and([red(y) for y in x[1]])
+            if x[0] == "or":
+                return c_or([red(y) for y in x[1]])
+            return x
+
+        return red(c)
+
+    def reduce(self, v):
+        while isinstance(v, tuple) and v and v[0] == "ite":
+            c = self.reduce_cond(v[1])
+            if c == TRUE:
+                v = v[2]
+            elif c == FALSE:
+                v = v[3]
+            else:
+                break
+        return v
+
     def path_cond(self, base: int):
         return c_and([e[1] for e in self.ctx[base:] if e[0] == "if"])
 
@@ -385,7 +431,7 @@ class Evaluator:
         return ("mcoll", m.cid)
 
     def e_IfExp(self, e, fr):
-        c = self.truth(self.eval(e.test))
+        c = self.reduce_cond(self.truth(self.eval(e.test)))
         if c == TRUE:
             return self.eval(e.body)
         if c == FALSE:
@@ -543,7 +589,7 @@ class Evaluator:
         if t == "obj":
             o = self.heap_objs[v[1]]
             if name in o.fields:
-                return o.fields[name]
+                return self.reduce(o.fields[name])
             m = self.repo.lookup_method(o.cls, name)
             if m is not None:
                 if m.is_property:
@@ -742,6 +788,7 @@ class Evaluator:
         return self.call(f, args, kwargs, e)
 
     def call(self, f, args, kwargs, node):
+        f = self.reduce(f)
         t = f[0]
         if t == "ite":
             n = len(self.ctx)
@@ -1256,7 +1303,7 @@ class Evaluator:
         return True
 
     def s_If(self, s, fr):
-        c = self.truth(self.eval(s.test))
+        c = self.reduce_cond(self.truth(self.eval(s.test)))
         if c == TRUE:
             return self.block(s.body, fr)
         if c == FALSE:
